@@ -105,3 +105,16 @@ Fixpoint trp (e : Parser.expr) (k : nat) : option (list tok * ast * list value) 
 (* the row value a parameter is bound to *)
 Definition prv (v : value) : rval :=
   match v with VInt z => RNum (inject_Z z) | VStr s => RStr s | _ => RStr "" end.
+
+(* PostgreSQL has no ? token: the placeholders of a text - the ? outside quoted identifiers and string constants - are numbered
+   $k, $k+1, ... from left to right (this is what a client library does before sending the text) *)
+Fixpoint number_q (s : bytes) (k : nat) (inq ins : bool) : bytes :=
+  match s with
+  | [] => []
+  | c :: r =>
+      if Ascii.eqb c """"%char && negb ins then c :: number_q r k (negb inq) ins
+      else if Ascii.eqb c "'"%char && negb inq then c :: number_q r k inq (negb ins)
+      else if Ascii.eqb c "?"%char && negb inq && negb ins then ("$"%char :: pnum k ++ number_q r (S k) inq ins)%list
+      else c :: number_q r k inq ins
+  end.
+Definition number_placeholders (s : bytes) : bytes := number_q s 1 false false.
